@@ -106,3 +106,617 @@ def e25(ctx: Ctx):
                         witness="" if ok else "10 FOR I=1 TO 3 / 20 FOR J=1 TO 2:PRINT I;J:NEXT / 30 NEXT",
                     )
     ctx.need(n_loops >= 5, "visit-loops", f"only {n_loops} child loops found in the visit methods of elements.py / prog.py (6 confirmed by hand)")
+
+
+# ---------------------------------------------------------------------------
+# L16 SLOT-AGREE (library): cached palette slot = hardware register
+
+import re
+
+from .b09lib import b09lib
+
+
+@rule(
+    "L16",
+    "SLOT-AGREE: in every library procedure that programs palette register r and reads / writes the cached colour of that register, the cache slot is r (subscript minus the procedure's BASE): the procedure that sets a colour and the ones that replay the cache after a mode change mean the same slot",
+    ["C04"],
+    floor=3,
+    soft=True,
+)
+def l16(ctx: Ctx):
+    from .core import IdiomNotFound
+
+    lib = b09lib(ctx)
+    n = 0
+    for name in lib.order:
+        p = lib.procs[name]
+        base = 1
+        fields = set()
+        for ln, raw in p.lines:
+            code = raw.split("(*")[0]
+            m = re.match(r"(?i)^\s*base\s+([01])\s*$", code)
+            if m:
+                base = int(m.group(1))
+            if re.match(r"(?i)^\s*type\b", code):
+                fields |= {f.lower() for f in re.findall(r"(\w+)\s*\(\s*\d+\s*\)", code)}
+        if not fields:
+            continue
+        regs = set()
+        for ln, raw in p.lines:
+            code = raw.split("(*")[0]
+            for m in re.finditer(r'(?i)"palette"\s*,\s*([A-Za-z_]\w*)\s*,', code):
+                regs.add(m.group(1).lower())
+        if not regs:
+            continue
+        for ln, raw in p.lines:
+            code = raw.split("(*")[0]
+            for m in re.finditer(r"(?i)\b\w+\.(\w+)\(([^()]*)\)", code):
+                if m.group(1).lower() not in fields:
+                    continue
+                e = m.group(2).replace(" ", "").lower()
+                mm = re.fullmatch(r"([a-z_]\w*)(?:([+-])(\d+))?", e) or None
+                k = None
+                var = None
+                if mm:
+                    var = mm.group(1)
+                    k = int(mm.group(3) or 0) * (-1 if mm.group(2) == "-" else 1)
+                else:
+                    mm2 = re.fullmatch(r"(\d+)\+([a-z_]\w*)", e)
+                    if mm2:
+                        var, k = mm2.group(2), int(mm2.group(1))
+                key = f"{name}:{m.group(1).lower()}({e})"
+                if var is None or var not in regs:
+                    ctx.undecided(key, f"the subscript `{m.group(2)}` is not the register variable of a palette call plus a constant", file="coco/resources/ecb.b09", line=ln)
+                    continue
+                n += 1
+                slot = k - base
+                ok = slot == 0
+                ctx.ob(
+                    key,
+                    ok,
+                    "" if ok else f"procedure {name} (BASE {base}) keeps the colour of palette register `{var}` in slot `{var}{slot:+d}` of `{m.group(1)}`; the procedures that replay the cache after HSCREEN / WIDTH read slot r for register r: the colour reaches the wrong register (and register 15 is out of range)",
+                    file="coco/resources/ecb.b09",
+                    line=ln,
+                    witness="" if ok else "10 PALETTE 1,63 / 20 HSCREEN 2",
+                )
+    if n < 3:
+        raise IdiomNotFound(f"only {n} cached palette accesses tied to a palette call found")
+
+
+# ---------------------------------------------------------------------------
+# E26 GUARD-IS-ABOUT-THE-CHILD
+
+
+def _self_fields(e: ast.AST) -> set:
+    return {x.attr for x in ast.walk(e) if isinstance(x, ast.Attribute) and isinstance(x.value, ast.Name) and x.value.id == "self"}
+
+
+def _locals(e: ast.AST) -> set:
+    import builtins
+
+    return {x.id for x in ast.walk(e) if isinstance(x, ast.Name) and x.id != "self" and not x.id[:1].isupper() and not hasattr(builtins, x.id)}
+
+
+def _touches_visitor(stmts) -> bool:
+    for s in stmts:
+        for c in ast.walk(s):
+            if isinstance(c, ast.Call) and isinstance(c.func, ast.Attribute) and c.func.attr.startswith("visit"):
+                return True
+    return False
+
+
+@rule(
+    "E26",
+    "GUARD-IS-ABOUT-THE-CHILD: in a construct's `visit`, a condition that decides whether a child is traversed or handed to the visitor reads only that child (is it there, what class is it) or a field that is always set together with it - never another property of the construct: every pass must see every child wherever the construct was built",
+    ["C05", "C01", "C03", "C10"],
+    floor=3,
+)
+def e26(ctx: Ctx):
+    py = pyfacts(ctx)
+    m = py.mod(ELEMENTS_REL)
+    n = 0
+    for ci in m.classes.values():
+        fn = ci.methods.get("visit")
+        if fn is None:
+            continue
+        # fields assigned together outside the constructor
+        together = {}
+        for mname, meth in ci.methods.items():
+            if mname == "__init__":
+                continue
+            fs = {t.attr for a in ast.walk(meth) if isinstance(a, (ast.Assign, ast.AnnAssign)) for t in (a.targets if isinstance(a, ast.Assign) else [a.target]) if isinstance(t, ast.Attribute) and isinstance(t.value, ast.Name) and t.value.id == "self"}
+            for f in fs:
+                together.setdefault(f, set()).update(fs)
+
+        def check(test: ast.AST, guarded, line: int):
+            nonlocal n
+            if not _touches_visitor(guarded):
+                return
+            n += 1
+            tf, tl = _self_fields(test), _locals(test)
+            bf = set().union(*[_self_fields(s) for s in guarded]) if guarded else set()
+            bl = set().union(*[_locals(s) for s in guarded]) if guarded else set()
+            allowed_f = set(bf)
+            for f in bf:
+                allowed_f |= together.get(f, set())
+            # a property of the same name as the private field is the same child
+            allowed_f |= {"_" + f for f in allowed_f} | {f.lstrip("_") for f in allowed_f}
+            extra = sorted((tf - allowed_f)) + sorted(tl - bl)
+            ok = not extra
+            ctx.ob(
+                f"{ci.name}.visit:{unparse(test)}",
+                ok,
+                "" if ok else f"`{ci.name}.visit` lets `{unparse(test)}` decide whether children are traversed / handed to the visitor; `{', '.join(extra)}` is not one of those children nor set together with them: constructs for which it differs (built by the parser or by another pass) are never seen by the passes",
+                file=ELEMENTS_REL,
+                line=line,
+                witness="" if ok else "10 PRINT@INT(P),INT(B);C",
+            )
+
+        def scan(stmts):
+            for i, st in enumerate(stmts):
+                if isinstance(st, ast.If):
+                    jump = (ast.Continue, ast.Return, ast.Break)
+                    if all(isinstance(s, jump + (ast.Pass,)) for s in st.body) and not st.orelse:
+                        check(st.test, stmts[i + 1 :], st.lineno)  # guard clause: decides about the rest
+                    elif st.body and isinstance(st.body[-1], jump):
+                        check(st.test, st.body + st.orelse + stmts[i + 1 :], st.lineno)  # the rest is the else branch
+                    else:
+                        check(st.test, st.body + st.orelse, st.lineno)
+                    scan(st.body)
+                    scan(st.orelse)
+                elif isinstance(st, (ast.For, ast.While)):
+                    scan(st.body)
+                elif isinstance(st, ast.Expr) and isinstance(st.value, ast.IfExp):
+                    check(st.value.test, [ast.Expr(st.value.body), ast.Expr(st.value.orelse)], st.lineno)
+
+        scan(fn.body)
+    ctx.need(n >= 3, "visit-guards", f"only {n} guarded traversals found in the visit methods of elements.py (7 confirmed by hand)")
+
+
+# ---------------------------------------------------------------------------
+# E27 KEYWORD-POLY: a keyword argument of a polymorphic call exists in every implementation
+
+B09_RELS = ("coco/b09/elements.py", "coco/b09/visitors.py", "coco/b09/parser.py", "coco/b09/prog.py", "coco/b09/compiler.py", "coco/b09/procbank.py", "coco/b09/error_handler.py", "coco/b09/configs.py")
+
+
+@rule(
+    "E27",
+    "KEYWORD-POLY: a method that is called with a keyword argument keeps that parameter name in every class that overrides it (the call goes through the common interface: an override that renames the parameter is a TypeError for the programs that put that class there)",
+    ["C15", "C07"],
+    floor=1,
+    default_props=["C15"],
+)
+def e27(ctx: Ctx):
+    py = pyfacts(ctx)
+    # keywords used in calls, per method name
+    used = {}
+    for rel in B09_RELS:
+        if rel not in py.modules:
+            continue
+        for call in ast.walk(py.mod(rel).tree):
+            if isinstance(call, ast.Call) and isinstance(call.func, ast.Attribute):
+                for k in call.keywords:
+                    if k.arg is not None:
+                        used.setdefault(call.func.attr, {}).setdefault(k.arg, (rel, call.lineno, unparse(call)))
+    n = 0
+    for rel in B09_RELS:
+        if rel not in py.modules:
+            continue
+        for ci in py.mod(rel).classes.values():
+            for mname, fn in ci.methods.items():
+                if mname.startswith("__") or mname not in used:
+                    continue
+                # the nearest ancestor that defines the method
+                base_fn = None
+                for anc in py.mro(ci.name)[1:]:
+                    if mname in anc.methods:
+                        base_fn = (anc, anc.methods[mname])
+                        break
+                if base_fn is None:
+                    continue
+                anc, bfn = base_fn
+                mine = {p.arg for p in fn.args.args + fn.args.kwonlyargs}
+                if fn.args.kwarg is not None:
+                    continue
+                for p_ in bfn.args.args[1:] + bfn.args.kwonlyargs:
+                    if p_.arg not in used[mname]:
+                        continue
+                    n += 1
+                    ok = p_.arg in mine
+                    urel, uline, utext = used[mname][p_.arg]
+                    ctx.ob(
+                        f"{ci.name}.{mname}({p_.arg}=)",
+                        ok,
+                        "" if ok else f"`{ci.name}.{mname}` overrides `{anc.name}.{mname}` without its parameter `{p_.arg}` (it has {sorted(mine - {'self'})}); `{utext[:80]}` ({urel}:{uline}) passes it by keyword: TypeError - an internal error, not a refusal - when the receiver is a `{ci.name}`",
+                        file=rel,
+                        line=fn.lineno,
+                        witness="" if ok else "10 W=40 / 20 WIDTH W",
+                    )
+    ctx.need(n >= 1, "keyword-calls", "no overridden method that is called with a keyword argument found (BasicWidthStatement passes indent_level by keyword)")
+
+
+# ---------------------------------------------------------------------------
+# E28 RUN-IS-A-NODE
+
+
+@rule(
+    "E28",
+    "RUN-IS-A-NODE: a pass never writes a procedure call with operands as opaque BASIC09 text: a RUN whose operands are variables or temporaries is a call node, so that the passes that run later (string allocation, implicit arrays, initialisation) see its operands",
+    ["C10", "C03"],
+    floor=2,
+)
+def e28(ctx: Ctx):
+    py = pyfacts(ctx)
+    n = 0
+    for rel in ("coco/b09/visitors.py", "coco/b09/parser.py", "coco/b09/elements.py"):
+        for call in ast.walk(py.mod(rel).tree):
+            if not (isinstance(call, ast.Call) and isinstance(call.func, ast.Name) and call.func.id == "Basic09CodeStatement" and call.args):
+                continue
+            n += 1
+            a = call.args[0]
+            consts = " ".join(str(c.value) for c in ast.walk(a) if isinstance(c, ast.Constant) and isinstance(c.value, str))
+            dynamic = any(isinstance(x, (ast.Name, ast.Attribute, ast.Call)) for x in ast.walk(a))
+            bad = dynamic and re.search(r"(?i)\brun\b", consts) is not None
+            ctx.ob(
+                f"{rel}:{unparse(a)[:60]}",
+                not bad,
+                "" if not bad else f"`{unparse(call)[:120]}` writes a RUN with computed operands as opaque text: the operands (variables, temporaries, array elements) are invisible to the passes that run after this one - no DIM, no string storage, no initialisation for names that occur only there",
+                file=rel,
+                line=call.lineno,
+                witness="" if not bad else '10 DATA 1,,3 / 20 READ N(2)',
+            )
+    for rel in ("coco/b09/compiler.py",):
+        for call in ast.walk(py.mod(rel).tree):
+            if isinstance(call, ast.Call) and isinstance(call.func, ast.Name) and call.func.id == "Basic09CodeStatement":
+                n += 1
+    ctx.need(n >= 2, "Basic09CodeStatement", f"only {n} opaque code statements found (the allocation lines and the joystick declarations are two)")
+
+
+# ---------------------------------------------------------------------------
+# D23 SHORT-READ-SILENT / D24 DEFINITE-ASSIGNMENT (decoders)
+
+DECODER_RELS = ("coco/hrstoppm.py", "coco/pixtopgm.py", "coco/maxtoppm.py", "coco/mgetoppm.py", "coco/cm3toppm.py", "coco/rattoppm.py", "coco/veftopng.py")
+
+
+def _raw_tree(ctx: Ctx, rel: str) -> ast.Module:
+    pth = ctx.path(rel)
+    if not pth.exists():
+        from .core import AnalysisError
+
+        raise AnalysisError("ANCHOR", rel, "module not found")
+    return ast.parse(pth.read_text())
+
+
+def _functions(t: ast.Module):
+    for n in ast.walk(t):
+        if isinstance(n, ast.FunctionDef):
+            yield n
+
+
+@rule(
+    "D23",
+    "SHORT-READ-SILENT: a decoder that notices that a read returned fewer bytes than asked for (a test on the length of what was read) raises; it does not leave the loop or the function quietly with a partial image behind a complete header",
+    ["C19"],
+    floor=7,
+)
+def d23(ctx: Ctx):
+    for rel in DECODER_RELS:
+        t = _raw_tree(ctx, rel)
+        found = 0
+        for fn in _functions(t):
+            reads = set()
+            for a in ast.walk(fn):
+                if isinstance(a, ast.Assign) and len(a.targets) == 1 and isinstance(a.targets[0], ast.Name):
+                    if any(isinstance(c, ast.Call) and isinstance(c.func, ast.Attribute) and c.func.attr == "read" for c in ast.walk(a.value)):
+                        reads.add(a.targets[0].id)
+            for st in ast.walk(fn):
+                if not isinstance(st, ast.If):
+                    continue
+                lens = [c for c in ast.walk(st.test) if isinstance(c, ast.Call) and isinstance(c.func, ast.Name) and c.func.id == "len" and c.args and isinstance(c.args[0], ast.Name) and c.args[0].id in reads]
+                short = lens and any(isinstance(c, ast.Compare) and any(isinstance(o, (ast.Lt, ast.LtE, ast.NotEq, ast.Eq)) for o in c.ops) for c in ast.walk(st.test))
+                if not short and not (isinstance(st.test, ast.UnaryOp) and isinstance(st.test.op, ast.Not) and isinstance(st.test.operand, ast.Name) and st.test.operand.id in reads):
+                    continue
+                quiet = any(isinstance(s, (ast.Break, ast.Return, ast.Continue)) for s in st.body) and not any(isinstance(x, ast.Raise) for s in st.body for x in ast.walk(s))
+                found += 1
+                ctx.ob(
+                    f"{rel}:{fn.name}:{unparse(st.test)}",
+                    not quiet,
+                    "" if not quiet else f"`if {unparse(st.test)}:` in {fn.name}() notices a short read and leaves quietly ({', '.join(type(s).__name__.lower() for s in st.body)}): a file that ends there is decoded to a partial image with a complete header and success",
+                    file=rel,
+                    line=st.lineno,
+                    witness="" if not quiet else "a file cut in the middle of a run",
+                )
+        ctx.ob(f"{rel}:scanned", True, file=rel, line=1)
+
+
+def _cond_names(e: ast.AST) -> set:
+    return {x.id for x in ast.walk(e) if isinstance(x, ast.Name)}
+
+
+@rule(
+    "D24",
+    "HEADER-READ-UNCONDITIONAL: a decoder local whose only assignment is a read from the stream made inside an `if` (no `else` that assigns it) is not used outside that condition: otherwise the files for which the condition is false never consume that field - the stream is one field off - and the use dies with UnboundLocalError after the header went out",
+    ["C16", "C18"],
+    floor=7,
+)
+def d24(ctx: Ctx):
+    for rel in DECODER_RELS:
+        t = _raw_tree(ctx, rel)
+        for fn in _functions(t):
+            sites = {}
+
+            def collect(stmts, conds):
+                for st in stmts:
+                    if isinstance(st, ast.Assign):
+                        for tg in st.targets:
+                            for x in ast.walk(tg):
+                                if isinstance(x, ast.Name) and isinstance(x.ctx, ast.Store):
+                                    sites.setdefault(x.id, []).append((st, list(conds)))
+                    elif isinstance(st, (ast.AugAssign, ast.AnnAssign)) and isinstance(st.target, ast.Name):
+                        sites.setdefault(st.target.id, []).append((st, list(conds)))
+                    elif isinstance(st, ast.If):
+                        collect(st.body, conds + [(st, True)])
+                        collect(st.orelse, conds + [(st, False)])
+                    elif isinstance(st, (ast.For, ast.While)):
+                        for x in ast.walk(st.target) if isinstance(st, ast.For) else []:
+                            if isinstance(x, ast.Name):
+                                sites.setdefault(x.id, []).append((st, list(conds)))
+                        collect(st.body, conds)
+                        collect(st.orelse, conds)
+                    elif isinstance(st, (ast.With, ast.Try)):
+                        for fld in ("body", "orelse", "finalbody"):
+                            collect(getattr(st, fld, []) or [], conds)
+                        for h in getattr(st, "handlers", []):
+                            collect(h.body, conds)
+
+            collect(fn.body, [])
+            for name, ss in sites.items():
+                if len(ss) != 1:
+                    continue
+                st, conds = ss[0]
+                if not isinstance(st, ast.Assign) or not conds:
+                    continue
+                if not any(isinstance(c, ast.Call) and isinstance(c.func, ast.Attribute) and c.func.attr == "read" for c in ast.walk(st.value)):
+                    continue
+                guard, _branch = conds[-1]
+                guard_names = set().union(*[_cond_names(g.test) for g, _ in conds])
+                inside = {id(x) for x in ast.walk(guard)}
+                # reads outside the guarding `if`, not under a test that shares a name with the guards
+                bad = None
+                parents = {}
+                for p_ in ast.walk(fn):
+                    for c_ in ast.iter_child_nodes(p_):
+                        parents[id(c_)] = p_
+                nested = {id(y) for g_ in ast.walk(fn) if isinstance(g_, (ast.FunctionDef, ast.Lambda)) and g_ is not fn for y in ast.walk(g_)}
+                for x in ast.walk(fn):
+                    # (uses inside the `if`, in closures - they run when called - and textually before the read are not judged)
+                    if isinstance(x, ast.Name) and x.id == name and isinstance(x.ctx, ast.Load) and id(x) not in inside and id(x) not in nested and x.lineno > getattr(guard, "end_lineno", guard.lineno):
+                        q = x
+                        correlated = False
+                        while id(q) in parents:
+                            q = parents[id(q)]
+                            if isinstance(q, (ast.If, ast.IfExp, ast.While)) and _cond_names(q.test) & guard_names:
+                                correlated = True
+                                break
+                            if isinstance(q, ast.BoolOp) and any(_cond_names(v) & guard_names for v in q.values if x not in list(ast.walk(v))):
+                                correlated = True
+                                break
+                        if not correlated:
+                            bad = x
+                            break
+                ok = bad is None
+                ctx.ob(
+                    f"{rel}:{fn.name}:{name}",
+                    ok,
+                    "" if ok else f"`{name}` is read from the stream only under `{unparse(guard.test)}` (line {st.lineno}) but used at line {bad.lineno} whatever that condition: files for which it is false skip the field (every later byte is taken for its neighbour) and the use raises UnboundLocalError",
+                    file=rel,
+                    line=st.lineno,
+                    witness="" if ok else "a file for which the condition is false",
+                )
+        ctx.ob(f"{rel}:scanned", True, file=rel, line=1)
+
+
+# ---------------------------------------------------------------------------
+# E29 INT-OF-LITERAL
+
+
+@rule(
+    "E29",
+    "INT-OF-LITERAL: the value of a numeric literal construct is never put through int(): the grammar admits literals beyond the double range (`1E309` is read as inf, `-1E999` as -inf), and int(inf) is an OverflowError - an internal error for a program the tool otherwise converts",
+    ["C15"],
+    floor=1,
+)
+def e29(ctx: Ctx):
+    py = pyfacts(ctx)
+    n = 0
+    for rel in ("coco/b09/elements.py", "coco/b09/visitors.py", "coco/b09/parser.py"):
+        for fn in [f for f in ast.walk(py.mod(rel).tree) if isinstance(f, ast.FunctionDef)]:
+            guarded = any(isinstance(c, ast.Call) and (getattr(c.func, "attr", "") in ("isfinite", "isinf") or getattr(c.func, "id", "") in ("isfinite", "isinf")) for c in ast.walk(fn))
+            in_try = {id(x) for t_ in ast.walk(fn) if isinstance(t_, ast.Try) and any(h.type is None or any(getattr(e_, "id", "") in ("OverflowError", "ArithmeticError", "Exception") for e_ in ast.walk(h.type)) for h in t_.handlers) for b_ in t_.body for x in ast.walk(b_)}
+            for c in ast.walk(fn):
+                if isinstance(c, ast.Call) and isinstance(c.func, ast.Name) and c.func.id in ("int", "round", "floor", "ceil", "trunc") and len(c.args) >= 1:
+                    lits = [a for a in ast.walk(c.args[0]) if isinstance(a, ast.Attribute) and a.attr in ("literal", "_literal")]
+                    if not lits:
+                        continue
+                    n += 1
+                    ok = guarded or id(c) in in_try
+                    ctx.ob(
+                        f"{rel}:{fn.name}:{unparse(c)}",
+                        ok,
+                        "" if ok else f"`{unparse(c)}` in {fn.name}() converts the value of a literal to an integer with no test for infinity: `1E309` is accepted by the grammar, read as inf, and int(inf) raises OverflowError",
+                        file=rel,
+                        line=c.lineno,
+                        witness="" if ok else "10 POKE 1E309,0",
+                    )
+        ctx.ob(f"{rel}:scanned", True, file=rel, line=1)
+
+
+# ---------------------------------------------------------------------------
+# E30 SAME-GUARD
+
+
+@rule(
+    "E30",
+    "SAME-GUARD: when a construct prints one optional child in several layouts (the IF..ELSE..ENDIF form and the LOOP/EXITIF form of an IF), every layout decides with the same test whether the child is printed: the child is the same object whichever layout is chosen, so two different tests mean one layout drops (or invents) it for some programs",
+    ["C02", "C06", "C07"],
+    floor=1,
+    default_props=["C02", "C06"],
+)
+def e30(ctx: Ctx):
+    py = pyfacts(ctx)
+    m = py.mod(ELEMENTS_REL)
+    n = 0
+    for ci in m.classes.values():
+        fn = ci.methods.get("basic09_text")
+        if fn is None:
+            continue
+        once = {}
+        stores = {}
+        for a in ast.walk(fn):
+            if isinstance(a, (ast.Assign, ast.AnnAssign)):
+                tg = a.targets[0] if isinstance(a, ast.Assign) else a.target
+                if isinstance(tg, ast.Name) and a.value is not None:
+                    stores[tg.id] = stores.get(tg.id, 0) + 1
+                    once[tg.id] = a.value
+        once = {k: v for k, v in once.items() if stores.get(k) == 1}
+
+        def resolve(e: ast.AST, depth=0) -> ast.AST:
+            import copy as _c
+
+            class S(ast.NodeTransformer):
+                def visit_Name(self, x):
+                    if isinstance(x.ctx, ast.Load) and x.id in once and depth < 3 and not isinstance(once[x.id], (ast.JoinedStr, ast.IfExp)):
+                        return resolve(_c.deepcopy(once[x.id]), depth + 1)
+                    return x
+
+            return S().visit(_c.deepcopy(e))
+
+        sites = {}
+        for node in ast.walk(fn):
+            if isinstance(node, (ast.IfExp, ast.If)):
+                test = resolve(node.test)
+                tf = _self_fields(test)
+                branches = ([node.body], [node.orelse]) if isinstance(node, ast.IfExp) else (node.body, node.orelse)
+                for f in tf:
+                    printed = any(isinstance(c, ast.Call) and isinstance(c.func, ast.Attribute) and c.func.attr == "basic09_text" and f in _self_fields(c.func.value) for br in branches for s in br for c in ast.walk(s))
+                    # only "the child is printed or nothing is": the other branch is the empty text / absent
+                    other_empty = (isinstance(node, ast.IfExp) and any(isinstance(b_, ast.Constant) and b_.value == "" for b_ in (node.body, node.orelse))) or (isinstance(node, ast.If) and not node.orelse)
+                    if printed and other_empty:
+                        # normal form: which truth value of the test prints the child
+                        in_body = any(isinstance(c, ast.Call) and isinstance(c.func, ast.Attribute) and c.func.attr == "basic09_text" and f in _self_fields(c.func.value) for s in branches[0] for c in ast.walk(s))
+                        t = test if in_body else ast.UnaryOp(op=ast.Not(), operand=test)
+                        txt = unparse(t)
+                        txt = {f"not self.{f} is None": f"self.{f} is not None", f"not (self.{f} is None)": f"self.{f} is not None"}.get(txt, txt)
+                        sites.setdefault(f, []).append((txt, node.lineno))
+        for f, ss in sites.items():
+            if len(ss) < 2:
+                continue
+            n += 1
+            texts = {}
+            for txt, ln in ss:
+                texts.setdefault(txt, []).append(ln)
+            ok = len(texts) == 1
+            if ok:
+                ctx.ob(f"{ci.name}.{f}", True, file=ELEMENTS_REL, line=ss[0][1])
+            else:
+                common = max(texts.items(), key=lambda kv: len(kv[1]))[0]
+                for txt, lns in texts.items():
+                    if txt == common and len(texts[common]) > 1:
+                        continue
+                    ctx.ob(
+                        f"{ci.name}.{f}:{txt}",
+                        False,
+                        f"`{ci.name}.basic09_text` prints `{f}` when `{txt}` (line {lns[0]}) in one layout and when `{[t for t in texts if t != txt][0]}` in another: for the programs on which the two tests differ one layout loses the child (an `ELSE <line>` arm that is a jump, not a statement block)",
+                        file=ELEMENTS_REL,
+                        line=lns[0],
+                        witness="10 IF A=1 THEN 100 ELSE IF A=2 THEN 200 ELSE 300",
+                    )
+    ctx.need(n >= 1, "layouts", "no construct that prints one optional child in two layouts found (BasicIfElse prints its ELSE arm in two)")
+
+
+# ---------------------------------------------------------------------------
+# L17 FORMATTER-GUARD
+
+
+def _implies_not_str(cond: ast.AST, positive: bool, target: str) -> bool:
+    """Does `cond` (taken as true when positive, as false otherwise) imply `not <target>.is_str_expr`?"""
+    want = f"{target}.is_str_expr"
+    if positive:
+        if isinstance(cond, ast.UnaryOp) and isinstance(cond.op, ast.Not):
+            return _implies_not_str(cond.operand, False, target)
+        if isinstance(cond, ast.BoolOp) and isinstance(cond.op, ast.And):
+            return any(_implies_not_str(v, True, target) for v in cond.values)
+        return False
+    # cond is false
+    if unparse(cond) == want:
+        return True
+    if isinstance(cond, ast.UnaryOp) and isinstance(cond.op, ast.Not):
+        return _implies_not_str(cond.operand, True, target)
+    if isinstance(cond, ast.BoolOp) and isinstance(cond.op, ast.Or):
+        return any(_implies_not_str(v, False, target) for v in cond.values)
+    return False
+
+
+@rule(
+    "L17",
+    "FORMATTER-GUARD: a value is handed to the number formatter `ecb_str` (parameter `valin: real`) only on paths on which it is known not to be a string expression: the guard implies `not x.is_str_expr` - a disjunct that lets string expressions of some class through passes a string where a REAL is declared",
+    ["C14", "C04", "C03"],
+    floor=2,
+    default_props=["C14"],
+)
+def l17(ctx: Ctx):
+    py = pyfacts(ctx)
+    n = 0
+    for rel in ("coco/b09/parser.py", "coco/b09/visitors.py", "coco/b09/elements.py"):
+        tree = py.mod(rel).tree
+        parents = {}
+        for p_ in ast.walk(tree):
+            for c_ in ast.iter_child_nodes(p_):
+                parents[id(c_)] = p_
+        for c in ast.walk(tree):
+            if not (isinstance(c, ast.Call) and isinstance(c.func, ast.Name) and c.func.id == "BasicFunctionalExpression" and c.args and isinstance(c.args[0], ast.Constant) and re.fullmatch(r"(?i)run\s+ecb_str", str(c.args[0].value).strip())):
+                continue
+            arg = None
+            if len(c.args) > 1 and isinstance(c.args[1], ast.Call) and c.args[1].args and isinstance(c.args[1].args[0], ast.List) and len(c.args[1].args[0].elts) == 1:
+                arg = c.args[1].args[0].elts[0]
+            key = f"{rel}:{c.lineno}"
+            if not isinstance(arg, ast.Name):
+                ctx.undecided(key, "the value handed to ecb_str is not a plain local", file=rel, line=c.lineno)
+                continue
+            n += 1
+            ok = False
+            q = c
+            conds = []
+            while id(q) in parents:
+                par = parents[id(q)]
+                if isinstance(par, ast.IfExp):
+                    if q is par.body:
+                        conds.append((par.test, True))
+                    elif q is par.orelse:
+                        conds.append((par.test, False))
+                elif isinstance(par, ast.If):
+                    if q in par.body:
+                        conds.append((par.test, True))
+                    elif q in par.orelse:
+                        conds.append((par.test, False))
+                # guard clauses in front of the statement: `if T: return ...` leaves `not T` for what follows
+                for fld in ("body", "orelse", "finalbody"):
+                    seq = getattr(par, fld, None)
+                    if isinstance(seq, list) and q in seq:
+                        for prev in seq[: seq.index(q)]:
+                            if isinstance(prev, ast.If) and not prev.orelse and prev.body and isinstance(prev.body[-1], (ast.Return, ast.Raise, ast.Continue, ast.Break)):
+                                conds.append((prev.test, False))
+                if isinstance(par, (ast.FunctionDef, ast.Lambda)):
+                    break
+                q = par
+            ok = any(_implies_not_str(t, pos, arg.id) for t, pos in conds)
+            shown = " and ".join((unparse(t) if pos else f"not ({unparse(t)})") for t, pos in conds) or "no condition"
+            ctx.ob(
+                f"{rel}:ecb_str({arg.id})",
+                ok,
+                "" if ok else f"`{arg.id}` is wrapped in `run ecb_str` under `{shown}`, which does not imply `not {arg.id}.is_str_expr`: a string expression that gets through is passed to `valin: real`, and the REAL temporary takes the place of the string operand",
+                file=rel,
+                line=c.lineno,
+                witness="" if ok else '10 HPRINT (1,2), A$+"X"',
+            )
+    ctx.need(n >= 2, "ecb_str sites", f"only {n} places that wrap a value in `run ecb_str` found (PRINT items and the HPRINT item are two)")
